@@ -525,7 +525,8 @@ class Gen:
             if c < 0.85:
                 return "(" + term(d - 1) + ")"
             if c < 0.91:
-                return self.binop(term(d - 1), "**", r.choice(["2", "3", "2", "1"]))
+                # (negative integer exponents too: written with **, not as a division)
+                return self.binop(term(d - 1), "**", r.choice(["2", "3", "2", "1", "-1", "-2", "-3", "- 2"]))
             if c < 0.94:
                 # a fractional power of an even power: real for every real measurement value, and a formula that must not
                 # be "simplified" as if the measured values were real and positive
